@@ -299,6 +299,12 @@ func (x *Exec) loopInvs(fr *Frame, ord int) []*Clause {
 func (x *Exec) loopEffects(fr *Frame, h *ssa.BasicBlock) (allocs map[*ssa.Alloc]bool, heap bool, calls bool) {
 	allocs = map[*ssa.Alloc]bool{}
 	x.loopMaps = nil
+	// does the body run code of the verified package with undeclared heap
+	// effects (own stores, own callees without a frame, own closures)? If
+	// not, the havoc at the loop head stands for foreign code only (plus the
+	// declared frames of the own callees, collected in loopMods).
+	x.loopOwnCode = false
+	x.loopMods = nil
 	for b := range fr.loops.body[h] {
 		for _, in := range b.Instrs {
 			switch in := in.(type) {
@@ -349,6 +355,24 @@ func (x *Exec) loopEffects(fr *Frame, h *ssa.BasicBlock) (allocs map[*ssa.Alloc]
 					if callee, ok := in.Call.Value.(*ssa.Function); ok && x.calleeEffectFree(callee) {
 						continue
 					}
+					switch v := in.Call.Value.(type) {
+					case *ssa.Function:
+						if x.L.isRepoFunc(v) {
+							ctr := x.contractFor(v)
+							if ctr != nil && ctr.HasMod && !contains(ctr.Modifies, "all") {
+								for _, m := range ctr.Modifies {
+									if m != "nothing" {
+										x.registerMapItem(m, x.pkgOf(v))
+										x.loopMods = append(x.loopMods, m)
+									}
+								}
+							} else {
+								x.loopOwnCode = true
+							}
+						}
+					case *ssa.MakeClosure:
+						x.loopOwnCode = true
+					}
 					if x.ctr != nil && fr.isEntry {
 						if u, ok := in.Call.Value.(*ssa.UnOp); ok {
 							if a, ok := u.X.(*ssa.Alloc); ok && contains(x.ctr.PureParams, a.Comment) {
@@ -360,6 +384,7 @@ func (x *Exec) loopEffects(fr *Frame, h *ssa.BasicBlock) (allocs map[*ssa.Alloc]
 				calls = true
 			case *ssa.Defer, *ssa.Go:
 				calls = true
+				x.loopOwnCode = true
 			case *ssa.MakeClosure:
 				// closures created in the loop may write captured cells
 				inner := in.Fn.(*ssa.Function)
@@ -481,7 +506,14 @@ func (x *Exec) loopEntry(fr *Frame, st *State, h *ssa.BasicBlock, ord int) bool 
 				st.ghost["yerr"] = x.d.Fresh("loop_yerr", "Iface")
 			}
 		}
-		x.havocHeap(st, "loop body calls")
+		if !heap && len(x.loopMaps) == 0 && !x.loopOwnCode {
+			x.havocHeap(st, "foreign call (in the loop body)")
+			for _, m := range x.loopMods {
+				x.havocComponent(st, m)
+			}
+		} else {
+			x.havocHeap(st, "loop body calls")
+		}
 		st.callsUnknown = true
 	} else if heap {
 		x.havocHeapOnly(st)
